@@ -117,11 +117,7 @@ impl Family for WIsoFam {
         match op {
             ZOp::LazyA => {
                 INIT_RAN.with(|c| c.set(0));
-                static STD_ONCE: std::sync::OnceLock<u32> = std::sync::OnceLock::new();
-                let v = *STD_ONCE.get_or_init(|| {
-                    INIT_RAN.with(|c| c.set(c.get() | 1));
-                    7
-                });
+                let v = LA.v;
                 let ran = INIT_RAN.with(|c| c.get()) & 1 != 0;
                 ZRes::Lazy(ran, v, 0)
             }
